@@ -131,6 +131,7 @@ reg(Check("C17", "model_checking",
                  Part("excluded4", SRV, "^TestVerifC17Excluded4$", instr=True, gomaxprocs=16, deadline=(120, 1800), thorough_only=True),
                  Part("election4", SRV, "^TestVerifC17Election4$", instr=True, gomaxprocs=16, deadline=(300, 1800)),
                  Part("split4", SRV, "^TestVerifC17Split4$", instr=True, gomaxprocs=16, deadline=(300, 1800)),
+                 Part("reelected3", SRV, "^TestVerifC17Reelected3$", instr=True, gomaxprocs=16, deadline=(300, 1800)),
                  Part("election5", SRV, "^TestVerifC17Election5$", instr=True, gomaxprocs=16, deadline=(300, 1800))]))
 
 reg(Check("C12", "exploration",
